@@ -7,6 +7,9 @@ A *world* is a plain dict (JSON-serialisable, it goes into replay files verbatim
   via_ldso      bool                        start the compiler through ld-linux (moves the image)
   env_pad       int                         length of a padding variable (moves the stack)
   hole_brk      int   hole_mmap int         holes made before main (move heap / later mmaps)
+  heap_hole     int                         sbrk() hole made before the *first* allocation of the
+                                            process: moves the whole brk heap, incl. the upper
+                                            32 bits of every heap address (multiples of 4 GiB)
   perturb       int 0..255                  glibc.malloc.perturb  (fill of fresh / freed chunks)
   tcache_count  int | None                  glibc.malloc.tcache_count
   mmap_threshold int | None                 glibc.malloc.mmap_threshold
@@ -47,6 +50,7 @@ REFERENCE_WORLD = {
     "env_pad": 0,
     "hole_brk": 0,
     "hole_mmap": 0,
+    "heap_hole": 0,
     "perturb": 0,
     "tcache_count": None,
     "mmap_threshold": None,
@@ -144,6 +148,7 @@ def build_env(w, home, extra=None):
         env["CAPYSIM_NOISE_" + k] = w["env_noise"][k]
     if w.get("env_pad"):
         env["CAPYSIM_PAD"] = "x" * w["env_pad"]
+    env["CAPYSIM_HEAP_HOLE"] = "%020d" % (w.get("heap_hole") or 0)
     if extra:
         env.update(extra)
     return env
